@@ -14,6 +14,7 @@ EXPLANATION = (
     'SliceOptions::allowed_lints are consulted only by into_updated (and the attribute converter of the generator request), and into_updated '
     'writes nothing but level; (5) contained elements append their parent\'s attributes. Decides these clauses on all paths, not the exact set '
     'of silenced lints for particular programs.')
+THOROUGH_RERUN = ['release']     # the same rules over the release build (no debug assertions): verified clean on the pinned tree
 ASSUMPTIONS = ['rustc type checking and MIR construction', 'clap applies ignore_case as declared']
 LINT = 'slicec::diagnostics::lints::Lint'
 NO_SCOPE_LINTS = {'DuplicateFile': 'a command-line level lint about the file list: there is no element to attach it to'}
